@@ -84,6 +84,44 @@ Proof.
   - inversion H. subst. repeat split; reflexivity.
 Qed.
 
+(* relayItems.deleteCall (finishRelayItem): Delete when the item found is the looked-up call's,
+   nothing otherwise *)
+Lemma items_delete_call_cases : forall st t lk,
+  items_delete_call st t lk = items_delete st t \/
+  (items_delete_call st t lk = (st, None) /\
+   exists it, lookup key_eqb t (items st) = Some it /\ (it_dest it =? fst lk) && (it_remap it =? snd lk) = false).
+Proof.
+  intros st t lk. unfold items_delete_call. destruct (lookup key_eqb t (items st)) as [it|] eqn:E.
+  - destruct ((it_dest it =? fst lk) && (it_remap it =? snd lk)) eqn:Em; [left; reflexivity|].
+    right. split; [reflexivity|]. exists it. split; [reflexivity|exact Em].
+  - left. unfold items_delete. rewrite E. reflexivity.
+Qed.
+
+Lemma items_delete_call_match : forall st t lk,
+  (forall it, lookup key_eqb t (items st) = Some it -> it_dest it = fst lk /\ it_remap it = snd lk) ->
+  items_delete_call st t lk = items_delete st t.
+Proof.
+  intros st t lk H. unfold items_delete_call. destruct (lookup key_eqb t (items st)) as [it|] eqn:E.
+  - destruct (H it eq_refl) as [-> ->]. rewrite !Z.eqb_refl. reflexivity.
+  - unfold items_delete. rewrite E. reflexivity.
+Qed.
+
+(* the frame part and the table part of its effect, in the shape of [items_delete_spec] *)
+Lemma items_delete_call_spec : forall st t lk st' g, items_delete_call st t lk = (st', g) ->
+  conns st' = conns st /\ gcs st' = gcs st /\ threads st' = threads st /\ cblog st' = cblog st /\
+  sent st' = sent st /\ seen st' = seen st /\ next_call st' = next_call st /\
+  match lookup key_eqb t (items st) with
+  | None => g = None /\ items st' = items st
+  | Some it => (g = Some (it, negb (it_tomb it)) /\ items st' = remove key_eqb t (items st)) \/
+               (g = None /\ st' = st)
+  end.
+Proof.
+  intros st t lk st' g H. destruct (items_delete_call_cases st t lk) as [E|[E (it&El&_)]]; rewrite E in H.
+  - apply items_delete_spec in H. destruct H as (H1&H2&H3&H4&H5&H6&H7&H8). repeat split; try assumption.
+    destruct (lookup key_eqb t (items st)); [left; exact H8|exact H8].
+  - inversion H. subst. repeat split; try reflexivity. rewrite El. right. split; reflexivity.
+Qed.
+
 (* relayItems.deleteTomb (the scheduled tombstone collection, label LGc) *)
 Lemma items_delete_tomb_spec : forall st t,
   conns (items_delete_tomb st t) = conns st /\ gcs (items_delete_tomb st t) = gcs st /\
